@@ -9,8 +9,9 @@ package req
 //   h2own  : http2.Transport's own dial (t2.RoundTrip: forced HTTP/2 / re-dials inside t2)
 //   quic   : http3.RoundTripper.dial (through the Dial seam, as in lane c12cfg)
 //
-// of a client that went through a random sequence of TLS setters and carries a random
-// combination of hooks {SetDialTLS, SetTLSHandshake, SetTLSFingerprint*}. The loopback TLS
+// of a client that went through a random sequence of TLS setters and hook setters
+// {SetDialTLS, SetTLSHandshake, SetTLSFingerprint*, their nil forms} IN ANY ORDER (model:
+// Req.Pool.TLS.prun, theorem fingerprint_reads_current_config / setter_order_irrelevant). The loopback TLS
 // server records the ClientHello (SNI, offered ALPN list), the outcome, the negotiated
 // protocol and the client certificate (it names acceptable CAs); the hooks record the
 // `addr` they are handed. Compared with Req.Pool.TLS.pathCfg / governs / handshakeGiven /
@@ -38,6 +39,7 @@ type c12HookRec struct {
 	dialRan bool
 	hsRan   bool
 	fpRan   bool
+	anyRan  bool     // whatever TLSHandshakeContext the final client carries was called
 	addrs   []string // addr arguments, in call order
 }
 
@@ -51,6 +53,8 @@ func (r *c12HookRec) note(kind, addr string) {
 		r.hsRan = true
 	case "fp":
 		r.fpRan = true
+	case "any":
+		r.anyRan = true
 	}
 	r.addrs = append(r.addrs, addr)
 }
@@ -123,6 +127,24 @@ func c12InstallHooks(c *Client, dial bool, hs string, trustOK bool, k int, rec *
 	}
 }
 
+// c12HookOp is one hook setter as an element of a setter sequence (token of the model's
+// Req.Pool.TLS.HookOp). The user functions are the ones of c12InstallHooks.
+func c12HookOp(tok string, trustOK bool, k int, rec *c12HookRec, fpID *utls.ClientHelloID) c12Op {
+	switch tok {
+	case "Hfp":
+		return c12Op{tok, func(c *Client) *Client { return c.SetTLSFingerprint(*fpID) }}
+	case "Huser":
+		return c12Op{tok, func(c *Client) *Client { c12InstallHooks(c, false, "user", trustOK, k, rec, fpID); return c }}
+	case "Hnone":
+		return c12Op{tok, func(c *Client) *Client { return c.SetTLSHandshake(nil) }}
+	case "Hdial1":
+		return c12Op{tok, func(c *Client) *Client { c12InstallHooks(c, true, "-", trustOK, k, rec, fpID); return c }}
+	case "Hdial0":
+		return c12Op{tok, func(c *Client) *Client { return c.SetDialTLS(nil) }}
+	}
+	panic("c12HookOp: " + tok)
+}
+
 func c12PathSNI(s string) int {
 	switch s {
 	case "":
@@ -139,7 +161,7 @@ func c12PathSNI(s string) int {
 
 func TestVerif_C12_path(t *testing.T) {
 	s := verifh.New(t, "C12", "c12path",
-		"a NEW connection per case on dial path {direct dialConn, dialConn through an in-process CONNECT proxy, through a SOCKS5 stub, HTTP/2's own dial, HTTP/3 dial seam} x hooks {none, SetTLSFingerprint (Chrome/Firefox/Safari/iOS), SetTLSHandshake (verifies against the addr it is given, own trust good/wrong), SetDialTLS, handshake+dialer together} x force {none, h1 / onlyH1 key, h2} x 0..5 random TLS setters of lane c12cfg (roots, InsecureSkipVerify, ServerName, client certificates, NextProtos, nil config, Clone) x server {certificate of CA k, ALPN list h2+h1 / h1 / none / h2 / other, acceptable client CAs}; observable: who governed, the addr the hook was handed (bare host vs host:port), ClientHello SNI + ALPN list, accepted, client certificate, hand-off to HTTP/2; non-trivial = a hook or a proxy or at least one trust/name/cert setter")
+		"a NEW connection per case on dial path {direct dialConn, dialConn through an in-process CONNECT proxy, through a SOCKS5 stub, HTTP/2's own dial, HTTP/3 dial seam} x 0..3 hook setters {SetTLSFingerprint (Chrome/Firefox/Safari/iOS), SetTLSHandshake (verifies against the addr it is given, own trust good/wrong), SetTLSHandshake(nil), SetDialTLS(fn), SetDialTLS(nil)} placed AFTER the TLS setters or at random positions BEFORE / BETWEEN them (setter order: configuration replaced or changed in place or cloned after the fingerprint / handshake was chosen) x force {none, h1 / onlyH1 key, h2} x 0..5 random TLS setters of lane c12cfg (roots, InsecureSkipVerify, ServerName, client certificates, NextProtos, nil config, Clone) x server {certificate of CA k, ALPN list h2+h1 / h1 / none / h2 / other, acceptable client CAs}; observable: who governed, the addr the hook was handed (bare host vs host:port), ClientHello SNI + ALPN list, accepted, client certificate, hand-off to HTTP/2; non-trivial = a hook or a proxy or at least one trust/name/cert setter")
 	r := s.Rand()
 	dir := t.TempDir()
 	srv, err := c12StartPathSrv()
@@ -171,13 +193,13 @@ func TestVerif_C12_path(t *testing.T) {
 		c := C()
 		var toks []string
 		nontriv := false
+		var seq []c12Op
 		for j := r.Intn(6); j > 0; j-- {
 			op := c12GenOp(s, dir)
 			if op.tok == "" {
 				continue
 			}
-			c = op.apply(c)
-			toks = append(toks, op.tok)
+			seq = append(seq, op)
 			if op.tok != "clone" {
 				nontriv = true
 			}
@@ -185,12 +207,57 @@ func TestVerif_C12_path(t *testing.T) {
 		k := r.Intn(4)
 		// make the built-in verdict "accept" often enough
 		if r.Intn(3) == 0 {
-			c.SetRootCertFromString(c12GetPKI().cas[k].pem)
-			toks = append(toks, fmt.Sprintf("root%d", k))
+			ca := c12GetPKI().cas[k].pem
+			seq = append(seq, c12Op{fmt.Sprintf("root%d", k), func(c *Client) *Client { return c.SetRootCertFromString(ca) }})
 		}
-		hs := []string{"-", "-", "fp", "fp", "user"}[r.Intn(5)]
-		dial := r.Intn(5) == 0
+		// hook setters: 0..3 of them, EITHER after all TLS setters OR at random positions of the
+		// sequence (before / between / after the TLS setters and Clone): the order dimension
 		trustOK := r.Intn(3) != 0
+		rec := &c12HookRec{}
+		fpi := r.Intn(len(fps))
+		nHooks := []int{0, 1, 1, 1, 2, 2, 3}[r.Intn(7)]
+		interleave := r.Intn(3) != 0
+		for j := 0; j < nHooks; j++ {
+			tok := []string{"Hfp", "Hfp", "Hfp", "Hfp", "Huser", "Huser", "Hnone", "Hdial1", "Hdial1", "Hdial0"}[r.Intn(10)]
+			op := c12HookOp(tok, trustOK, k, rec, &fps[fpi])
+			pos := len(seq)
+			if interleave {
+				pos = r.Intn(len(seq) + 1)
+			}
+			seq = append(seq[:pos], append([]c12Op{op}, seq[pos:]...)...)
+		}
+		hs, dial := "-", false
+		hookSeen, tlsAfterHook, replacedAfterFp := false, false, false
+		for _, op := range seq {
+			c = op.apply(c)
+			toks = append(toks, op.tok)
+			switch op.tok {
+			case "Hfp":
+				hs = "fp"
+			case "Huser":
+				hs = "user"
+			case "Hnone":
+				hs = "-"
+			case "Hdial1":
+				dial = true
+			case "Hdial0":
+				dial = false
+			}
+			if strings.HasPrefix(op.tok, "H") {
+				hookSeen = true
+			} else if hookSeen {
+				tlsAfterHook = true
+				if hs == "fp" && (strings.HasPrefix(op.tok, "cfg:") || op.tok == "nil") {
+					replacedAfterFp = true
+				}
+			}
+		}
+		if tlsAfterHook {
+			c12Count(s, "order:tls-setter-after-hook-setter")
+		}
+		if replacedAfterFp {
+			c12Count(s, "order:config-replaced-after-fingerprint")
+		}
 		force := "-"
 		onlyH1 := false
 		switch path {
@@ -205,9 +272,15 @@ func TestVerif_C12_path(t *testing.T) {
 			}
 			onlyH1 = force == "1" || r.Intn(5) == 0
 		}
-		rec := &c12HookRec{}
-		fpi := r.Intn(len(fps))
-		c12InstallHooks(c, dial, hs, trustOK, k, rec, &fps[fpi])
+		// whatever handshake function the FINAL client carries is wrapped by a recorder; the
+		// lane's own function flags itself: "any" without "hs" = the library's fingerprint closure
+		if tr0 := c.GetTransport(); tr0.TLSHandshakeContext != nil {
+			inner := tr0.TLSHandshakeContext
+			tr0.TLSHandshakeContext = func(ctx context.Context, addr string, plain net.Conn) (net.Conn, *tls.ConnectionState, error) {
+				rec.note("any", addr)
+				return inner(ctx, addr, plain)
+			}
+		}
 		if dial || hs != "-" || path == "tunnel" {
 			nontriv = true
 		}
@@ -277,9 +350,6 @@ func TestVerif_C12_path(t *testing.T) {
 		cancel()
 		// model line
 		dTok, tTok, oTok := "0", "0", "0"
-		if dial {
-			dTok = "1"
-		}
 		if trustOK {
 			tTok = "1"
 		}
@@ -291,7 +361,7 @@ func TestVerif_C12_path(t *testing.T) {
 			opsTok = strings.Join(toks, ",")
 		}
 		mpath := path
-		line := fmt.Sprintf("c12path %s %s %s %s %s %s 1 %d 12 %s %s %s", mpath, dTok, hs, tTok, oTok, force, k, accTok, c12AlpnChars(sa), opsTok)
+		line := fmt.Sprintf("c12path %s %s - %s %s %s 1 %d 12 %s %s %s", mpath, dTok, tTok, oTok, force, k, accTok, c12AlpnChars(sa), opsTok)
 		hookDesc := ""
 		if hs == "fp" {
 			hookDesc += ".SetTLSFingerprint" + fpNames[fpi]
@@ -316,7 +386,7 @@ func TestVerif_C12_path(t *testing.T) {
 				acceptTok = 1
 			}
 			rec.mu.Lock()
-			dialRan, hsRan, fpRan := rec.dialRan, rec.hsRan, rec.fpRan
+			dialRan, hsRan, fpRan := rec.dialRan, rec.hsRan, rec.anyRan && !rec.hsRan
 			rec.mu.Unlock()
 			given := rec.given("localhost", srv.port)
 			switch {
@@ -390,7 +460,7 @@ func TestVerif_C12_path(t *testing.T) {
 		s.Case(c.line, c.impl, true, class, c.nontriv, c.human)
 	}
 	for _, must := range []string{"path:direct", "path:tunnel", "path:h2own", "path:quic", "proxy:http", "proxy:socks5", "hs:fp", "hs:user", "dialtls",
-		"gov=cfg", "gov=fp", "gov=hs", "gov=dial", "accepted", "fp-accepted", "handoff-to-h2", "h2own-no-h2", "given-bare", "given-port"} {
+		"gov=cfg", "gov=fp", "gov=hs", "gov=dial", "accepted", "fp-accepted", "order:tls-setter-after-hook-setter", "order:config-replaced-after-fingerprint", "handoff-to-h2", "h2own-no-h2", "given-bare", "given-port"} {
 		if c12Hist[s][must] == 0 {
 			t.Errorf("generator never reached bucket %q", must)
 		}
